@@ -440,6 +440,51 @@ fn two_buckets(prefix: Vec<u8>, n: usize, suffix: Vec<u8>) -> Vec<u8> {
     [prefix, bstr(&inner), unprot, suffix].concat()
 }
 
+/// Multiplicative inverse of an odd number modulo 2^64 (Newton iteration).
+const fn inv64(m: u64) -> u64 {
+    let mut x = m; // correct to 3 bits
+    let mut i = 0;
+    while i < 6 {
+        x = x.wrapping_mul(2u64.wrapping_sub(m.wrapping_mul(x)));
+        i += 1;
+    }
+    x
+}
+
+/// Strides of label progressions `k * stride mod 2^64` that defeat the usual hand-rolled hash
+/// functions: powers of two (everything lands in one bucket of a "low bits" / "high bits" table) and the
+/// inverses of well-known multiplicative-hash constants (Fibonacci hashing in 64 and 32 bits, FxHash, the
+/// murmur3 / splitmix finalisers, the FNV primes), for which the *hashes* form a tiny progression.
+const STRIDES: [u64; 12] = [
+    1 << 16,
+    1 << 32,
+    1 << 44,
+    inv64(0x9e37_79b9_7f4a_7c15),
+    inv64(0x9e37_79b9),
+    inv64(0x517c_c1b7_2722_0a95),
+    inv64(0xff51_afd7_ed55_8ccd),
+    inv64(0xc4ce_b9fe_1a85_ec53),
+    inv64(0xbf58_476d_1ce4_e5b9),
+    inv64(0x0000_0100_0000_01b3),
+    inv64(0x0100_0193),
+    0x9e37_79b9_7f4a_7c15,
+];
+
+/// n label-value pairs whose labels are `(k + 1) * stride mod 2^64`, read as signed 64-bit integers.
+fn strided_pairs(n: usize, stride: u64) -> Vec<u8> {
+    let mut b = vec![];
+    for k in 0..n {
+        let v = ((k as u64 + 8).wrapping_mul(stride)) as i64;
+        if v >= 0 {
+            head(&mut b, 0, v as u64);
+        } else {
+            head(&mut b, 1, !(v as u64));
+        }
+        b.push(0x00);
+    }
+    b
+}
+
 fn families() -> &'static Vec<Family> {
     static F: std::sync::OnceLock<Vec<Family>> = std::sync::OnceLock::new();
     F.get_or_init(|| {
@@ -474,6 +519,30 @@ fn families() -> &'static Vec<Family> {
             Family { name: "key with n extra parameters, labels scattered", ty: "CoseKey", build: |n| rep([map_head(n + 1), vec![0x01, 0x01]].concat(), n, move |i| [uint(1000 + ((i * 7919) % n) as u64), vec![0x00]].concat()) },
             Family { name: "claims set with n extra text claims, names descending", ty: "ClaimsSet", build: |n| rep(map_head(n), n, move |i| { let t = format!("{:06}", n - 1 - i); let mut b = vec![]; head(&mut b, 3, t.len() as u64); b.extend_from_slice(t.as_bytes()); b.push(0x00); b }) },
             Family { name: "key with n text key operations, descending", ty: "CoseKey", build: |n| rep([vec![0xa2, 0x01, 0x01, 0x04], arr_head(n)].concat(), n, move |i| { let t = format!("{:06}", n - 1 - i); let mut b = vec![]; head(&mut b, 3, t.len() as u64); b.extend_from_slice(t.as_bytes()); b }) },
+            Family { name: "header with n extras whose labels step by STRIDES[0] (mod 2^64)", ty: "Header", build: |n| [map_head(n), strided_pairs(n, STRIDES[0])].concat() },
+            Family { name: "key with n extras whose labels step by STRIDES[0] (mod 2^64)", ty: "CoseKey", build: |n| [map_head(n + 1), vec![0x01, 0x01], strided_pairs(n, STRIDES[0])].concat() },
+            Family { name: "header with n extras whose labels step by STRIDES[1] (mod 2^64)", ty: "Header", build: |n| [map_head(n), strided_pairs(n, STRIDES[1])].concat() },
+            Family { name: "key with n extras whose labels step by STRIDES[1] (mod 2^64)", ty: "CoseKey", build: |n| [map_head(n + 1), vec![0x01, 0x01], strided_pairs(n, STRIDES[1])].concat() },
+            Family { name: "header with n extras whose labels step by STRIDES[2] (mod 2^64)", ty: "Header", build: |n| [map_head(n), strided_pairs(n, STRIDES[2])].concat() },
+            Family { name: "key with n extras whose labels step by STRIDES[2] (mod 2^64)", ty: "CoseKey", build: |n| [map_head(n + 1), vec![0x01, 0x01], strided_pairs(n, STRIDES[2])].concat() },
+            Family { name: "header with n extras whose labels step by STRIDES[3] (mod 2^64)", ty: "Header", build: |n| [map_head(n), strided_pairs(n, STRIDES[3])].concat() },
+            Family { name: "key with n extras whose labels step by STRIDES[3] (mod 2^64)", ty: "CoseKey", build: |n| [map_head(n + 1), vec![0x01, 0x01], strided_pairs(n, STRIDES[3])].concat() },
+            Family { name: "header with n extras whose labels step by STRIDES[4] (mod 2^64)", ty: "Header", build: |n| [map_head(n), strided_pairs(n, STRIDES[4])].concat() },
+            Family { name: "key with n extras whose labels step by STRIDES[4] (mod 2^64)", ty: "CoseKey", build: |n| [map_head(n + 1), vec![0x01, 0x01], strided_pairs(n, STRIDES[4])].concat() },
+            Family { name: "header with n extras whose labels step by STRIDES[5] (mod 2^64)", ty: "Header", build: |n| [map_head(n), strided_pairs(n, STRIDES[5])].concat() },
+            Family { name: "key with n extras whose labels step by STRIDES[5] (mod 2^64)", ty: "CoseKey", build: |n| [map_head(n + 1), vec![0x01, 0x01], strided_pairs(n, STRIDES[5])].concat() },
+            Family { name: "header with n extras whose labels step by STRIDES[6] (mod 2^64)", ty: "Header", build: |n| [map_head(n), strided_pairs(n, STRIDES[6])].concat() },
+            Family { name: "key with n extras whose labels step by STRIDES[6] (mod 2^64)", ty: "CoseKey", build: |n| [map_head(n + 1), vec![0x01, 0x01], strided_pairs(n, STRIDES[6])].concat() },
+            Family { name: "header with n extras whose labels step by STRIDES[7] (mod 2^64)", ty: "Header", build: |n| [map_head(n), strided_pairs(n, STRIDES[7])].concat() },
+            Family { name: "key with n extras whose labels step by STRIDES[7] (mod 2^64)", ty: "CoseKey", build: |n| [map_head(n + 1), vec![0x01, 0x01], strided_pairs(n, STRIDES[7])].concat() },
+            Family { name: "header with n extras whose labels step by STRIDES[8] (mod 2^64)", ty: "Header", build: |n| [map_head(n), strided_pairs(n, STRIDES[8])].concat() },
+            Family { name: "key with n extras whose labels step by STRIDES[8] (mod 2^64)", ty: "CoseKey", build: |n| [map_head(n + 1), vec![0x01, 0x01], strided_pairs(n, STRIDES[8])].concat() },
+            Family { name: "header with n extras whose labels step by STRIDES[9] (mod 2^64)", ty: "Header", build: |n| [map_head(n), strided_pairs(n, STRIDES[9])].concat() },
+            Family { name: "key with n extras whose labels step by STRIDES[9] (mod 2^64)", ty: "CoseKey", build: |n| [map_head(n + 1), vec![0x01, 0x01], strided_pairs(n, STRIDES[9])].concat() },
+            Family { name: "header with n extras whose labels step by STRIDES[10] (mod 2^64)", ty: "Header", build: |n| [map_head(n), strided_pairs(n, STRIDES[10])].concat() },
+            Family { name: "key with n extras whose labels step by STRIDES[10] (mod 2^64)", ty: "CoseKey", build: |n| [map_head(n + 1), vec![0x01, 0x01], strided_pairs(n, STRIDES[10])].concat() },
+            Family { name: "header with n extras whose labels step by STRIDES[11] (mod 2^64)", ty: "Header", build: |n| [map_head(n), strided_pairs(n, STRIDES[11])].concat() },
+            Family { name: "key with n extras whose labels step by STRIDES[11] (mod 2^64)", ty: "CoseKey", build: |n| [map_head(n + 1), vec![0x01, 0x01], strided_pairs(n, STRIDES[11])].concat() },
             // two wide places of one input at once (sizes add, so only a cost that multiplies them shows)
             Family { name: "COSE_Sign1 with n extras in the protected and n other extras in the unprotected header", ty: "CoseSign1", build: |n| two_buckets(vec![0x84], n, vec![0xf6, 0x40]) },
             Family { name: "COSE_Signature with n + n extras in its two headers", ty: "CoseSignature", build: |n| two_buckets(vec![0x83], n, vec![0x40]) },
@@ -822,10 +891,10 @@ pub fn property() -> Property {
                shape bombs (arity 0..7 arrays of arbitrary slots, counter-signature / key_ops / crit oddities); size/depth bombs up to 1 MiB (thorough 4 MiB): nesting to depth 2^17, huge declared lengths, chunk chains, wide flat arrays/maps/key sets/signer lists, \
                recipient nesting, and protected-header ⊃ counter-signature chains of depth up to 60000 in three shapes (protected / unprotected / alternating) x four forms (single counter-signature, array of one, array of two, alternating) inside nine carriers — through every decoding entry point (from_slice of every type, from_tagged_slice of the six tagged types, ProtectedHeader::from_cbor_bstr), \
                followed on accepted values by clone, ==, Debug, re-encode, drop and the to-be-signed / verify / MAC / decrypt helpers under their documented preconditions; in a supervised worker on a 2 MiB stack; \
-               oracle: no panic, no process death, heap peak <= 4096n+2MiB and total allocation <= 16384n+8MiB per entry point (>= 8x the maxima observed on the unchanged tree, which the evidence reports) (deterministic proxy for linear time), a watchdog for hangs (inconclusive, not a violation); plus a scaling oracle: for 36 hand-written families of wide inputs (labels ascending, descending and scattered; n trailing KDF strings, n extras, n signers, n recipients, n keys, n chunks ...; two wide places of one input at once: both header buckets of each structure, body + signer / recipient, header + counter-signature ...) and for generated families (maps of a generated valid item widened) thread CPU time of decode + follow-ups is measured on a quadrupling ladder and two consecutive steps costing more than 11x (linear: 4x, quadratic: 16x) fail; \
+               oracle: no panic, no process death, heap peak <= 4096n+2MiB and total allocation <= 16384n+8MiB per entry point (>= 8x the maxima observed on the unchanged tree, which the evidence reports) (deterministic proxy for linear time), a watchdog for hangs (inconclusive, not a violation); plus a scaling oracle: for 60 hand-written families of wide inputs (incl. label progressions whose stride is a power of two or the inverse of a well-known hash multiplier) (labels ascending, descending and scattered; n trailing KDF strings, n extras, n signers, n recipients, n keys, n chunks ...; two wide places of one input at once: both header buckets of each structure, body + signer / recipient, header + counter-signature ...) and for generated families (maps of a generated valid item widened) thread CPU time of decode + follow-ups is measured on a quadrupling ladder and two consecutive steps costing more than 11x (linear: 4x, quadratic: 16x) fail; \
                non-trivial = well-formed CBOR accepted by some entry point, or any bomb; distinct by input bytes",
         assumptions: &["'ordinary thread stack' = Rust's default 2 MiB for spawned threads, release build of the harness with overflow checks on", "time proportionality is checked through allocated bytes, a CPU-time quadrupling ladder on parametric wide inputs (threshold 11x on two consecutive steps) and a 120 s per-case watchdog"],
-        exhaustive_domains: &["scaling ladder (n, 4n, 16n, ... up to 4*10^5 elements / 2 MiB / 1 s) over 36 parametric wide-input families"],
+        exhaustive_domains: &["scaling ladder (n, 4n, 16n, ... up to 4*10^5 elements / 2 MiB / 1 s) over 60 parametric wide-input families"],
         case,
         exh_count,
         exh_case,
